@@ -398,6 +398,8 @@ def run(ctx):
         "operation chains: every public operation funnels through Triangle(...) (T-funnel screen + op-sequence oracle)",
     ]
     ok, feats = translate_and_prove(ctx, "C01_gen.v", "Props/C01.v")
+    ctx.prove_static("Props/C01b.v", timeout=300)      # order / equality ignore the key order in which details were written
+    ctx.audit_tree(["Proofs/MetaKeyOrder.v", "Props/C01b.v"])
     g = Gen(random.Random(ctx.seed * 1000003 + 1))
     n_sets = 240 if ctx.quick else 2400
     n_perm = 5 if ctx.quick else 12
